@@ -111,6 +111,45 @@ Proof.
 Qed.
 Print Assumptions C06_identity_two_sets_one_partition_refuted.
 
+(* any number of racing first writes of one set after any history, any schedule (a call runs under ims.lock: a
+   schedule is an order of the calls): every racing call is answered with the set and with ONE partition id *)
+Theorem C06_race_any_schedule : forall quote unquote, QuoteSpec quote unquote -> forall pre ts m,
+  (forall t, In t ts -> to_map unquote t = Ok m /\ fast_ok quote unquote (pre ++ ts) t m) -> m <> [] ->
+  exists s, forall k t, nth_error ts k = Some t ->
+    nth_error (snd (run quote unquote t_empty (pre ++ ts))) (length pre + k) = Some (GSrc s m).
+Proof. exact race_any_schedule. Qed.
+Print Assumptions C06_race_any_schedule.
+(* what a concurrent reader can see: in every state a history reaches there is one partition per set *)
+Theorem C06_one_partition_per_set : forall quote unquote, QuoteSpec quote unquote -> forall texts e1 e2,
+  In e1 (t_map (fst (run quote unquote t_empty texts))) -> In e2 (t_map (fst (run quote unquote t_empty texts))) ->
+  d_tags (snd e1) = d_tags (snd e2) -> e1 = e2.
+Proof. exact reachable_one_partition_per_set. Qed.
+Print Assumptions C06_one_partition_per_set.
+(* GetJournal (DESCRIBE PARTITION, the look-up without creation): never changes the index; under the invariant it
+   answers with the partition of the denoted set if there is one -- whatever the spelling -- and with NotFound otherwise *)
+Theorem C06_get_is_lookup : forall quote unquote, QuoteSpec quote unquote -> forall D st text,
+  fst (get_or_create quote unquote st text false) = st /\
+  (Inv2 quote D st -> forall m, to_map unquote text = Ok m -> m <> [] -> fast_ok_D quote D text m ->
+     match tbl_find (t_map st) (line quote m) with
+     | Some d => snd (get_or_create quote unquote st text false) = GSrc (d_src d) m /\ d_tags d = m
+     | None => snd (get_or_create quote unquote st text false) = GNotFound
+     end).
+Proof. intros quote unquote QS D st text. exact (get_no_create quote unquote QS D st text). Qed.
+Print Assumptions C06_get_is_lookup.
+(* Delete, then the set again: the record is gone (a look-up finds nothing), the invariant holds, and the next write of
+   the set -- any spelling -- creates ONE new partition with a fresh id *)
+Theorem C06_delete_recreate : forall quote unquote, QuoteSpec quote unquote -> forall D st src text m,
+  Inv2 quote D st -> (exists l d, In (l, d) (t_map st) /\ d_src d = src /\ d_tags d = m) ->
+  to_map unquote text = Ok m -> m <> [] -> D m -> fast_ok_D quote D text m ->
+  let '(st1, r1) := t_delete quote st src in
+  let '(st2, r2) := get_or_create quote unquote st1 text true in
+  r1 = GSrc src [] /\ Inv2 quote D st1 /\ tbl_find (t_map st1) (line quote m) = None /\
+  snd (get_or_create quote unquote st1 text false) = GNotFound /\
+  Inv2 quote D st2 /\ r2 = GSrc (t_next st) m /\ t_next st <> src /\
+  (forall e, In e (t_map st2) -> d_tags (snd e) = m -> d_src (snd e) = t_next st).
+Proof. intros quote unquote QS D st src text m. exact (delete_recreate quote unquote QS D st src text m). Qed.
+Print Assumptions C06_delete_recreate.
+
 (* two racing first writes of one new set (both orders of the two lock-protected steps): one partition, one id *)
 Theorem C06_race : forall quote unquote st t1 t2 m first1,
   Inv quote unquote st -> to_map unquote t1 = Ok m -> to_map unquote t2 = Ok m -> m <> [] -> rt_ok quote unquote m ->
@@ -246,3 +285,12 @@ Example C06_expr_nontrivial :
   let pm_bad := fun (p s : bytes) => if bytes_eqb p X then None else Some (bytes_eqb p s) in
   expr_all (cond_ok up pm) e = true /\ expr_all (cond_wf up) e = true /\ expr_all (cond_ok up pm_bad) e = false.
 Proof. vm_compute. repeat split; reflexivity. Qed.
+
+(* a history with a look-up that finds nothing, a creation, look-ups by two spellings, a deletion and a re-creation *)
+Example C06_ops_nontrivial :
+  let t1 := [x61; EQ; x31; COMMA; x62; EQ; x32] in                                   (* a=1,b=2 *)
+  let t2 := [LBR; SP; x62; SP; EQ; QUOTE; x32; QUOTE; COMMA; x61; EQ; x31; RBR] in   (* { b ="2",a=1} *)
+  snd (run_ops squote sunquote t_empty [HGet t1; HCall t1 false; HGet t2; HDel 0; HGet t1; HDel 0; HCall t2 false; HGet t1]) =
+    [GNotFound; GSrc 0 [([x61], [x31]); ([x62], [x32])]; GSrc 0 [([x61], [x31]); ([x62], [x32])]; GSrc 0 []; GNotFound;
+     GNotFound; GSrc 1 [([x61], [x31]); ([x62], [x32])]; GSrc 1 [([x61], [x31]); ([x62], [x32])]].
+Proof. vm_compute. reflexivity. Qed.
